@@ -228,7 +228,11 @@ def create_configured_connection(database: str = ":memory:") -> duckdb.DuckDBPyC
     conn = duckdb.connect(
         database, config={"storage_compatibility_version": STORAGE_COMPATIBILITY_VERSION}
     )
-    configure_duckdb_connection(conn)
+    try:
+        configure_duckdb_connection(conn)
+    except BaseException:
+        conn.close()
+        raise
     return conn
 
 
@@ -240,16 +244,18 @@ def configured_connection(database: str = ":memory:") -> Iterator[duckdb.DuckDBP
     session_dir = Path(temp_dir) / f"duckdb_tmp_{uuid.uuid4().hex}"
     session_dir.mkdir(exist_ok=True)
 
-    if database == ":memory:" and not _use_in_memory_db():
-        database = str(session_dir / "session.duckdb")
-
-    conn = create_configured_connection(database)
-    conn.execute(f"SET temp_directory = '{session_dir}'")
+    conn: Optional[duckdb.DuckDBPyConnection] = None
     try:
+        if database == ":memory:" and not _use_in_memory_db():
+            database = str(session_dir / "session.duckdb")
+
+        conn = create_configured_connection(database)
+        conn.execute(f"SET temp_directory = '{session_dir}'")
         yield conn
     finally:
         try:
-            conn.close()
+            if conn is not None:
+                conn.close()
         finally:
             shutil.rmtree(session_dir, ignore_errors=True)
 
